@@ -443,7 +443,11 @@ func runC05(w *World, r *Report) {
 
 	// ---- skip-prehandler
 	r.Rule("C05.skip-prehandler", "task.skipPreHandler written only in restoreTasks from the checkpoint; submit skips the pre-handler only under it", 2)
-	fSkip := w.Field("compose", "task", "skipPreHandler")
+	fSkip := taskSkipFlag(w)
+	if fSkip == nil {
+		r.Fail("C05.skip-prehandler", "the skip mark restored from the checkpoint belongs to the restored task", restoreTasks.Pos(), "restoreTasks sets no bool field of the task it builds from the checkpoint's skip table: the mark lives somewhere keyed by node (a table on the task manager, the runner …) and so applies to EVERY later execution of that node in the resumed run — a nested graph inside a loop has its state pre-handler skipped on each later iteration, not only on the resumed one")
+		fSkip = types.NewField(token.NoPos, nil, "<no per-task skip flag>", types.Typ[types.Bool], false)
+	}
 	nw := 0
 	for _, fn := range w.RepoFuncs("compose") {
 		for _, fw := range fieldWrites(fn) {
@@ -962,4 +966,25 @@ func skipMarkOnlySubGraphs(w *World, r *Report, rule string) {
 		}
 	})
 	r.Check(okm, rule, hSub.Name()+": only interrupted sub-graphs skip their pre-handler", hSub.Pos(), "SkipPreHandler[key] = true under membership in subGraphInterrupts", "rerun nodes / other nodes are marked to skip their pre-handler")
+}
+
+// taskSkipFlag: the bool field of compose.task that restoreTasks fills from the checkpoint's skip table (a lookup in
+// its map[string]bool parameter) — identified by what is done with it, not by its name. nil when there is none.
+func taskSkipFlag(w *World) *types.Var {
+	rt := w.Fn("compose", "runner.restoreTasks")
+	taskT := w.Named("compose", "task")
+	for _, fw := range fieldWrites(rt) {
+		if fw.owner != taskT {
+			continue
+		}
+		if b, ok := fw.field.Type().Underlying().(*types.Basic); !ok || b.Kind() != types.Bool {
+			continue
+		}
+		if lk, ok := fw.val.(*ssa.Lookup); ok {
+			if p, ok := lk.X.(*ssa.Parameter); ok && p.Parent() == rt {
+				return fw.field
+			}
+		}
+	}
+	return nil
 }
